@@ -29,7 +29,7 @@ MAP = {
     "src/mpls.cpp": ["C01", "C03", "C05"],
     "src/dhcp.cpp": ["C01", "C02", "C03", "C04"],
     "src/dhcpv6.cpp": ["C01", "C02", "C03", "C04"],
-    "src/bootp.cpp": ["C01", "C03", "C14"],
+    "src/bootp.cpp": ["C01", "C02", "C03", "C04", "C14"],
     "src/rtp.cpp": ["C01", "C02", "C03", "C04"],
     "src/radiotap.cpp": ["C01", "C02", "C03", "C11"],
     "src/utils/radiotap_parser.cpp": ["C01", "C11"],
